@@ -29,12 +29,14 @@ def fixtures(max_size=400_000):
 
 
 def mutate_bytes(rng: random.Random, b: bytes, other: bytes) -> tuple[str, bytes]:
-    k = rng.choice(["truncate", "flip", "flip-many", "splice", "zero-run", "insert", "dup-chunk", "head-only", "tail-cut"])
+    k = rng.choice(["truncate", "flip", "flip-many", "splice", "zero-run", "insert", "dup-chunk", "head-only", "tail-cut", "append"])
     n = len(b)
     if k == "truncate":
         return k, b[: rng.randint(0, max(0, n - 1))]
     if k == "head-only":
         return k, b[: rng.choice([0, 1, 2, 4, 8, 16, 64, 512])]
+    if k == "append":      # trailing garbage / padded download
+        return k, b + rng.choice([b"\x00", b"\n", b"\r\n", b"\x1a", rng.randbytes(rng.choice([1, 2, 511, 512, 513, 4096]))])
     if k == "tail-cut":
         return k, b[: max(0, n - rng.choice([1, 2, 4, 22, 64, 512]))]
     ba = bytearray(b)
@@ -151,29 +153,48 @@ def build_cases(rng: random.Random, per_extractor: int):
     return cases
 
 
+def _consume(f, data, key):
+    n = 0
+    for res in f(io.BytesIO(data), f"fuzz.{key}"):
+        n += 1
+        it = getattr(res, "iterate_supported_attachments", None)
+        if it is not None:          # e-mail attachments are part of the failure surface
+            for _ in it():
+                n += 1
+    return n
+
+
 def _run_case(key, data, cli_mode):
-    """Returns (outcome, detail).  outcome in ok|family|foreign|cli-ok|cli-bad"""
+    """Returns (outcome, detail).  outcome in ok|family|foreign|pollute|cli-ok|cli-bad.
+    Library mode runs the extraction TWICE in the same process (state carried between calls is part of
+    'any byte content handed to any extractor': the second call must behave like the first) with
+    sys.stdout/sys.stderr captured (a library that prints breaks the CLI's stdout contract)."""
     from sharepoint2text.parsing import router
     from sharepoint2text.parsing.exceptions import ExtractionError
     if cli_mode is None:
         mod, fn = router._EXTRACTOR_REGISTRY[key]
         import importlib
         f = getattr(importlib.import_module(mod), fn)
-        try:
-            n = 0
-            for res in f(io.BytesIO(data), f"fuzz.{key}"):
-                n += 1
-                it = getattr(res, "iterate_supported_attachments", None)
-                if it is not None:          # e-mail attachments are part of the failure surface
-                    for _ in it():
-                        n += 1
-            return "ok", str(n)
-        except ExtractionError as e:
-            return "family", type(e).__name__
-        except Exception as e:  # noqa
-            return "foreign", f"{type(e).__module__}.{type(e).__name__}: {str(e)[:200]}"
+        outs = []
+        for rnd in (1, 2):
+            so, se = io.StringIO(), io.StringIO()
+            try:
+                with contextlib.redirect_stdout(so), contextlib.redirect_stderr(se):
+                    n = _consume(f, data, key)
+                oc = ("ok", str(n))
+            except ExtractionError as e:
+                oc = ("family", type(e).__name__)
+            except Exception as e:  # noqa
+                return "foreign", f"{type(e).__module__}.{type(e).__name__}: {str(e)[:200]} (call #{rnd} on these bytes in this process)"
+            if so.getvalue() or se.getvalue():
+                return "pollute", (f"extraction wrote to sys.stdout ({so.getvalue()[:160]!r}) / sys.stderr "
+                                   f"({se.getvalue()[:160]!r}) (call #{rnd})")
+            outs.append(oc)
+        return outs[0]
     # CLI
     from sharepoint2text import cli
+    import sharepoint2text
+    import json as _json
     with tempfile.TemporaryDirectory(dir="/var/tmp") as td:
         p = os.path.join(td, f"fuzz.{key}")
         with open(p, "wb") as fh:
@@ -184,9 +205,29 @@ def _run_case(key, data, cli_mode):
                 rc = cli.main([p] + cli_mode)
         except BaseException as e:  # noqa
             return "cli-bad", f"main raised {type(e).__name__}: {str(e)[:200]}"
-    so, se = out.getvalue(), err.getvalue()
-    if rc == 0 and so.endswith("\n") and se == "":
-        return "cli-ok", "0"
+        so, se = out.getvalue(), err.getvalue()
+        if rc == 0 and so.endswith("\n") and se == "":
+            # "prints the result": stdout is the result and nothing else
+            if "--json" in cli_mode or "--json-unit" in cli_mode:
+                try:
+                    _json.loads(so)
+                    ok = so.count("\n") == 1
+                except Exception:  # noqa
+                    ok = False
+                if not ok:
+                    return "cli-bad", f"rc=0 but stdout is not one JSON document on one line: stdout_head={so[:120]!r}"
+            else:
+                sink = io.StringIO()
+                try:
+                    with contextlib.redirect_stdout(sink), contextlib.redirect_stderr(sink):
+                        want = "\n\n".join(r.get_full_text().rstrip() for r in sharepoint2text.read_file(p)).rstrip() + "\n"
+                except Exception as e:  # noqa
+                    return "cli-bad", f"rc=0 but a second read_file of the same file raised {type(e).__name__}"
+                if so != want:
+                    k = next((i for i, (a, b) in enumerate(zip(so, want)) if a != b), min(len(so), len(want)))
+                    return "cli-bad", (f"rc=0 but stdout is not the full text of the results (differs at char {k}: "
+                                       f"stdout {so[k:k + 80]!r} vs result {want[k:k + 80]!r}) stdout_len={len(so)}")
+            return "cli-ok", "0"
     if rc == 1 and so == "" and se.endswith("\n") and se.count("\n") == 1:
         return "cli-ok", "1"
     return "cli-bad", f"rc={rc} stdout_len={len(so)} stdout_head={so[:80]!r} stderr={se[:300]!r}"
